@@ -120,6 +120,11 @@ struct Slot {
     std::string name;
     std::unique_ptr<BaseIndex> idx;
     int starts{0};
+    // Stopped at least once in a state where BaseIndex does not commit its locator although per-block data was already
+    // written: interrupted during an initial sync, or (synced) with a best block that is not the flushed tip (after
+    // invalidateblock the index is "ahead of the flushed chainstate" and Commit() is skipped). The database may then be ahead
+    // of the locator the next start resumes from.
+    bool uncommitted_stop{false};
     TxIndex* tx() { return dynamic_cast<TxIndex*>(idx.get()); }
     BlockFilterIndex* bf() { return dynamic_cast<BlockFilterIndex*>(idx.get()); }
     CoinStatsIndex* cs() { return dynamic_cast<CoinStatsIndex*>(idx.get()); }
@@ -146,7 +151,10 @@ struct Hist {
 
     Hist(vh::Rng& r, TestingSetup& n) : rng{r}, node{n}
     {
-        key.MakeNewKey(true);
+        do { // the key comes from the case generator, so that a case is replayable from (seed, case) alone
+            const auto b = rng.bytes(32);
+            key.Set(b.begin(), b.end(), /*fCompressedIn=*/true);
+        } while (!key.IsValid());
         s_true = CScript() << OP_TRUE;
         s_p2pk = CScript() << ToByteVector(key.GetPubKey()) << OP_CHECKSIG;
         for (int i = 0; i < 12; ++i) hashes.push_back(rng.bytes(32));
@@ -361,7 +369,9 @@ struct Hist {
         else if (s.name == "coinstats") s.idx = std::make_unique<CoinStatsIndex>(std::move(chain), 1 << 20, false, false);
         else s.idx = std::make_unique<TxoSpenderIndex>(std::move(chain), 1 << 20, false, false);
         if (!s.idx->Init()) {
-            vh::log().violation("index-init-failed", "index refused to start on its own database after a legitimate history", vh::J().str("index", s.name).i("starts", s.starts));
+            // distinct key when the index was stopped before without a locator commit (see Slot::uncommitted_stop)
+            vh::log().violation(s.uncommitted_stop ? "index-init-failed-after-uncommitted-stop" : "index-init-failed",
+                                "index refused to start on its own database after a legitimate history", vh::J().str("index", s.name).i("starts", s.starts).b("uncommitted_stop_before", s.uncommitted_stop));
             s.idx.reset();
             return false;
         }
@@ -377,10 +387,16 @@ struct Hist {
     void StopIndex(Slot& s)
     {
         if (!s.idx) return;
-        if (s.idx->GetSummary().synced) {
+        if (!s.idx->GetSummary().synced) {
+            s.uncommitted_stop = true;
+        } else {
             node.m_node.validation_signals->SyncWithValidationInterfaceQueue();
             chainman().ActiveChainstate().ForceFlushStateToDisk(/*wipe_cache=*/false);
             node.m_node.validation_signals->SyncWithValidationInterfaceQueue();
+            if (s.idx->GetSummary().best_block_hash != Tip()) {
+                s.uncommitted_stop = true;
+                vh::log().obs("stops_ahead_of_flushed_tip");
+            }
         }
         s.idx->Interrupt();
         s.idx->Stop();
@@ -422,7 +438,7 @@ struct Hist {
     {
         const auto t0 = std::chrono::steady_clock::now();
         while (!s.idx->BlockUntilSyncedToCurrentChain()) {
-            if (std::chrono::steady_clock::now() - t0 > 300s) return false;
+            if (std::chrono::steady_clock::now() - t0 > 1800s) return false;
             std::this_thread::sleep_for(1ms);
         }
         return true;
@@ -522,11 +538,11 @@ struct Hist {
                     ++spent;
                     if (!res->has_value()) viol("spender-missing", "spent output has no spender in the index", vh::J().str("outpoint", op.ToString()));
                     else if ((*res)->tx->GetHash() != it->second.first || (*res)->block_hash != it->second.second)
-                        viol("spender-wrong", "FindSpender returned a spender that is not the active one",
+                        viol(slots[3].uncommitted_stop ? "spender-wrong-after-uncommitted-stop" : "spender-wrong", "FindSpender returned a spender that is not the active one",
                              vh::J().str("outpoint", op.ToString()).str("want", it->second.first.GetHex()).str("got", (*res)->tx->GetHash().GetHex()).str("got_block", (*res)->block_hash.GetHex()));
                 } else if (at_tip) {
                     ++unspent;
-                    if (res->has_value()) viol("spender-of-unspent", "output unspent on the active chain has a spender in the index",
+                    if (res->has_value()) viol(slots[3].uncommitted_stop ? "spender-of-unspent-after-uncommitted-stop" : "spender-of-unspent", "output unspent on the active chain has a spender in the index",
                                                vh::J().str("outpoint", op.ToString()).str("got", (*res)->tx->GetHash().GetHex()).str("got_block", (*res)->block_hash.GetHex()));
                 }
             }
